@@ -486,5 +486,15 @@ def rfwd_forwarding(chk: Check) -> None:
     shared.forwarding_rule(chk, "C15.FWD", ('core/output/sanitization.py:',), "sanitization settings", 2)
 
 
+def r6_memo(chk: Check) -> None:
+    from . import shared
+
+    P = chk.project
+    mods = ('core/output/sanitization.py', 'transport/prepare.py', 'generation/case.py', 'cli/commands/run/handlers/cassettes.py', 'cli/commands/run/handlers/junitxml.py', 'cli/commands/run/handlers/output.py', 'core/failures.py')
+    fns = [f for m in mods if m in P.by_relpath for f in P.module(m).functions.values() if not isinstance(f.node, ast.Lambda)]
+    shared.memo_key_rule(chk, "C15.R6", fns, {("_set_cache_entry", "data"): "a setter: the value to store is handed in by get(), which computed it for this key", ("_get_body_strategy", "operation"): "a parameter belongs to exactly one operation (stated next to the cache)"},
+                         "MEMO-KEY(anchor modules of this property): what is written is sanitized per value and configuration: a cache keyed by less returns a value sanitized (or not) under another configuration", floor=0)
+
+
 def rules(tier: str) -> list:  # type: ignore[type-arg]
-    return [r1_writers, r2_curl, r3_plumbing, r4_sanitizer, r5_console_urls, r5b_schema_location, r5c_error_messages, r6_late_bound_config, rfwd_forwarding]
+    return [r1_writers, r2_curl, r3_plumbing, r4_sanitizer, r5_console_urls, r5b_schema_location, r5c_error_messages, r6_late_bound_config, rfwd_forwarding, r6_memo]
